@@ -34,6 +34,7 @@ func runC14(c *Ctx, r *Report) {
 	c14Region(c, r, "C14.R6")
 	c14Clock(c, r, "C14.R7")
 	c14Tables(c, r, "C14.R8")
+	c14DNSNameCase(c, r, "C14.R19")
 	c14Siblings(c, r, "C14.R9")
 	c14Transport(c, r, "C14.R10")
 	c14Headers(c, r, "C14.R11")
@@ -349,7 +350,7 @@ func varInitBytes(c *Ctx, pkgShort, name string) []byte {
 }
 
 func c14R4(c *Ctx, r *Report, rule string) {
-	r.rule(rule, "every netip.Addr passed to (netip.Prefix).Contains in matcher-reachable code originates only from netip.ParseAddr/MustParseAddr, netip.AddrFrom4 or (netip.Addr).Unmap (helper parameters are followed to what the callers pass); both IP matchers reach such a test", 4)
+	r.rule(rule, "every netip.Addr passed to (netip.Prefix).Contains in matcher-reachable code originates only from netip.ParseAddr/MustParseAddr, netip.AddrFrom4 or (netip.Addr).Unmap (helper parameters are followed to what the callers pass) and has had its zone removed (WithZone) on the way; both IP matchers reach such a test", 4)
 	okSrc := map[string]bool{"net/netip.ParseAddr": true, "net/netip.MustParseAddr": true, "net/netip.AddrFrom4": true, "(net/netip.Addr).Unmap": true}
 	reach := c.matcherReach()
 	hasContains := map[*ssa.Function]bool{}
@@ -376,15 +377,18 @@ func c14R4(c *Ctx, r *Report, rule string) {
 			}
 			n++
 			arg := ci.Common().Args[1]
-			bad := c14AddrOrigins(c, fn, arg, okSrc, 0)
+			bad := c14AddrOrigins(c, fn, arg, okSrc, map[string]bool{"(net/netip.Addr).WithZone": true}, 0)
 			hasContains[fn] = true
 			r.check(len(bad) == 0, rule, fname(fn), fmt.Sprintf("Contains#%d", n), c.ipos(ci), "address is in canonical (unmapped) form", "the address tested against the configured ranges can be an IPv4-mapped IPv6 address (origin: "+strings.Join(bad, ", ")+"): an IPv4 peer on a dual-stack listener then matches no IPv4 range")
+			// ... and without a zone: (netip.Prefix).Contains answers false for every address that carries one
+			zoned := c14AddrOrigins(c, fn, arg, map[string]bool{"(net/netip.Addr).WithZone": true, "net/netip.AddrFrom4": true, "net/netip.AddrFromSlice": true}, map[string]bool{"(net/netip.Addr).Unmap": true}, 0)
+			r.check(len(zoned) == 0, rule, fname(fn), fmt.Sprintf("Contains#%d zone", n), c.ipos(ci), "address carries no zone", "the address tested against the configured ranges can carry an IPv6 zone (origin: "+strings.Join(zoned, ", ")+"; a link-local peer's address is written fe80::1%eth0): (netip.Prefix).Contains is false for every zoned address, so such a peer matches no range - not even fe80::/10 or ::/0 - and `not remote_ip` always matches it")
 		}
 	}
 }
 
 // c14AddrOrigins returns the non-canonical origins of a netip.Addr value (following module helper results and parameters one level).
-func c14AddrOrigins(c *Ctx, fn *ssa.Function, v ssa.Value, okSrc map[string]bool, depth int) []string {
+func c14AddrOrigins(c *Ctx, fn *ssa.Function, v ssa.Value, okSrc, through map[string]bool, depth int) []string {
 	var bad []string
 	for _, o := range origins(v, sliceOpts{}) {
 		switch o.Kind {
@@ -393,12 +397,17 @@ func c14AddrOrigins(c *Ctx, fn *ssa.Function, v ssa.Value, okSrc map[string]bool
 				continue
 			}
 			call := o.V.(*ssa.Call)
+			if through[o.Desc] && len(call.Call.Args) > 0 && depth < 6 {
+				// an operation that keeps the property in question: judged on what it is applied to
+				bad = append(bad, c14AddrOrigins(c, fn, call.Call.Args[0], okSrc, through, depth+1)...)
+				continue
+			}
 			if callee := call.Call.StaticCallee(); callee != nil && callee.Pkg != nil && strings.HasPrefix(callee.Pkg.Pkg.Path(), modPath) && depth < 3 {
 				// module helper: look at what it returns for the netip.Addr result
 				for _, ret := range returnsOf(callee) {
 					for _, res := range ret.Results {
 						if typeStr(res.Type()) == "net/netip.Addr" {
-							bad = append(bad, c14AddrOrigins(c, callee, res, okSrc, depth+1)...)
+							bad = append(bad, c14AddrOrigins(c, callee, res, okSrc, through, depth+1)...)
 						}
 					}
 				}
@@ -418,7 +427,7 @@ func c14AddrOrigins(c *Ctx, fn *ssa.Function, v ssa.Value, okSrc map[string]bool
 				idx := paramIndex(fn, par)
 				for _, cs := range sites {
 					if idx >= 0 && idx < len(cs.Common().Args) {
-						bad = append(bad, c14AddrOrigins(c, cs.Parent(), cs.Common().Args[idx], okSrc, depth+1)...)
+						bad = append(bad, c14AddrOrigins(c, cs.Parent(), cs.Common().Args[idx], okSrc, through, depth+1)...)
 					}
 				}
 				continue
